@@ -3,9 +3,11 @@ package main
 import (
 	"crypto/sha1"
 	"fmt"
+	"reflect"
 	"sort"
 	"strings"
 	"time"
+	"unsafe"
 
 	"github.com/mit-pdos/go-nfsd/nfstypes"
 )
@@ -37,6 +39,7 @@ func (s *seqRun) freeCounts() [2]uint64 {
 func (s *seqRun) dumpTree() string {
 	var lines []string
 	s.dumpFiles = nil
+	s.dumpWhere = nil
 	type item struct {
 		path string
 		h    []byte
@@ -83,6 +86,10 @@ func (s *seqRun) dumpTree() string {
 			switch a.Ftype {
 			case nfstypes.NF3REG:
 				s.dumpFiles = append(s.dumpFiles, append([]byte{}, h...))
+				if s.dumpWhere == nil {
+					s.dumpWhere = map[string]dumpLoc{}
+				}
+				s.dumpWhere[hx(h)] = dumpLoc{dir: append([]byte{}, it.h...), name: string(e.Name)}
 				if a.Size <= 1<<20 {
 					var rr nfstypes.READ3res
 					if !s.guarded("dump read", func() {
@@ -361,4 +368,30 @@ func (s *seqRun) limitsProbe() {
 	s.opSetattr(g, &z, timeHow{}, timeHow{})
 	s.opRemove("remove", d, "big")
 	s.opRemove("remove", d, "sparse")
+	// a file far below the announced maximum whose blocks lie on both sides of a block-bitmap
+	// boundary and reach into the double-indirect range: it can be truncated, written again and removed
+	// (what a freeing transaction touches — data, index, inode and TWO bitmap blocks — must fit the journal)
+	if st := s.srv.VerifFsState(); st.Super.MaxBnum() > 34000 && !s.dead {
+		s.waitIdle()
+		nextp := reflect.ValueOf(st.Balloc).Elem().FieldByName("next")
+		*(*uint64)(unsafe.Pointer(nextp.UnsafeAddr())) = 32768 - 1260
+		sf := s.mk("create", d, "straddle")
+		piece := s.mkData(128 * 4096)
+		for i := uint64(0); i < 12 && sf != nil && !s.dead; i++ {
+			s.opWrite(sf, i*128*4096, 128*4096, 2, piece)
+		}
+		if sf != nil && !s.dead {
+			okb = s.hist["setattr:ok"]
+			s.opSetattr(sf, &z, timeHow{}, timeHow{})
+			s.waitIdle()
+			before = s.hist["write:ok"]
+			s.opWrite(sf, 0, 4096, 2, piece[:4096])
+			if s.hist["setattr:ok"] != okb+1 || s.hist["write:ok"] != before+1 {
+				s.oracle("C19", "file-within-limits-unusable", "a 1536-block file (6 MB, announced maximum file size far above) whose blocks straddle block 32768 was truncated to 0; the truncation or the WRITE after it failed")
+			}
+			s.opRead(sf, 0, 4096)
+			s.opRemove("remove", d, "straddle")
+			s.waitIdle()
+		}
+	}
 }
